@@ -39,7 +39,7 @@ func Verif_C05_TaskRunner() {
 	rt.Assert(gauge == 0, "no task is still inside the guarded region")
 }
 
-//verif:entry tier=quick,thorough cover=busy,accepted
+//verif:entry tier=quick,thorough cover=busy,accepted,holderpanicked
 //verif:doc TaskRunner.ScheduleImmediately: concurrency 1..2, k tasks holding their slot, one ScheduleImmediately: ErrTaskRunnerBusy iff k = concurrency, and then the task never runs and no slot/WaitGroup count is leaked.
 func Verif_C05_ScheduleImmediately() {
 	c := rt.Choose("concurrency", 2) + 1
@@ -47,7 +47,14 @@ func Verif_C05_ScheduleImmediately() {
 	tr := NewTaskRunner(c)
 	release := make(chan struct{})
 	for i := 0; i < k; i++ {
-		err := tr.ScheduleImmediately(func() { <-release })
+		boom := rt.Bool("holderPanics")
+		err := tr.ScheduleImmediately(func() {
+			<-release
+			if boom {
+				rt.Cover("holderpanicked")
+				panic("holder failed")
+			}
+		})
 		rt.Assert(err == nil, "ScheduleImmediately accepts while a slot is free")
 	}
 	rt.WaitIdle()
@@ -63,5 +70,10 @@ func Verif_C05_ScheduleImmediately() {
 	close(release)
 	tr.Wait()
 	rt.Assert(ran == (err == nil), "a refused task never runs, an accepted one runs once")
-	rt.Assert(rt.ChanLen(tr.limitChan) == 0, "all slots free after Wait (the refused call leaked nothing)")
+	rt.Assert(rt.ChanLen(tr.limitChan) == 0, "all slots free after Wait (the refused call and panicking tasks leaked nothing)")
+	// the full capacity is available again
+	for i := 0; i < c; i++ {
+		rt.Assert(tr.ScheduleImmediately(func() { <-release }) == nil, "after all holders finished (including by panic) the full capacity is available again")
+	}
+	tr.Wait()
 }
